@@ -64,6 +64,7 @@ var (
 	replay  = flag.String("replay", "", "replay file")
 	repoDir = flag.String("repo", "/repo", "tree under test (for lib/go when compiling generated code)")
 	verifDir = flag.String("verif", "/verif", "verification root (helper scripts)")
+	frugalMR = flag.String("frugal-mr", "", "frugal binary with instrumented map iteration (C19)")
 )
 
 func main() {
@@ -88,6 +89,8 @@ func main() {
 		runC16(res)
 	case "c14":
 		runC14(res)
+	case "c19":
+		runC19(res)
 	default:
 		fmt.Fprintln(os.Stderr, "unknown mode", *mode)
 		os.Exit(2)
